@@ -141,6 +141,10 @@ func (s Sample) Mean() float64 {
 		wsum += w
 		m += (x - m) * w / wsum
 	}
+	if wsum == 0 {
+		// Nothing carries any weight.
+		return math.NaN()
+	}
 	return m
 }
 
@@ -211,6 +215,10 @@ func (s Sample) GeoMean() float64 {
 		wsum += w
 		lx := math.Log(x)
 		m += (lx - m) * w / wsum
+	}
+	if wsum == 0 {
+		// Nothing carries any weight.
+		return math.NaN()
 	}
 	return math.Exp(m)
 }
